@@ -124,8 +124,11 @@ func genScenario(r *hk.Rand, proto int, idx int) scenario {
 	// fields the protocols treat specially
 	if r.Chance(25) {
 		ua := hdrOp{Kind: "set", K: "User-Agent", V: hk.Pick(r, []string{"verif-agent/1.0", "", "Mozilla/5.0 (X11)"})}
-		if r.Chance(30) && proto != 1 {
-			ua = hdrOp{Kind: "nc", K: "user-agent", V: "lower-agent/2"}
+		if r.Chance(35) {
+			// a spelling that is not the canonical map key. On HTTP/1.1 the writer looks for
+			// "User-Agent" only: the caller's line must be written as spelled (next to the default
+			// User-Agent, which is what the code does and what the model pins)
+			ua = hdrOp{Kind: "nc", K: hk.Pick(r, []string{"user-agent", "user-agent", "USER-AGENT", "User-agent", "uSeR-aGeNt"}), V: "lower-agent/2"}
 		}
 		if r.Bool() {
 			sc.Req = append(sc.Req, ua)
@@ -151,10 +154,13 @@ func genScenario(r *hk.Rand, proto int, idx int) scenario {
 		// content-length), under a spelling that is NOT the canonical map key: it must be omitted
 		// there whatever the spelling. On HTTP/1.1 only the harmless ones are generated (a second
 		// host / content-length / transfer-encoding line would change the framing of the request).
-		pool := []string{"connection", "keep-alive", "proxy-connection"}
+		pool := []string{"connection", "keep-alive", "proxy-connection", "host", "accept-encoding"}
 		if proto != 1 {
-			pool = append(pool, "upgrade", "transfer-encoding", "host", "content-length")
+			pool = append(pool, "upgrade", "transfer-encoding", "content-length")
 		}
+		// HTTP/1.1: a non-canonical host / accept-encoding is the caller's own field and has to be
+		// written once as spelled (the writer's own Host / Accept-Encoding: gzip line stays); a second
+		// content-length / transfer-encoding would change the framing and is not generated there
 		nm := hk.Pick(r, pool)
 		k := recase(r, nm)
 		if r.Chance(40) || k == http.CanonicalHeaderKey(nm) {
@@ -164,7 +170,7 @@ func genScenario(r *hk.Rand, proto int, idx int) scenario {
 			k = nm
 		}
 		v := map[string]string{"connection": "keep-alive", "keep-alive": "timeout=5", "proxy-connection": "keep-alive",
-			"upgrade": "websocket", "transfer-encoding": "chunked", "host": "other.example", "content-length": "7"}[nm]
+			"upgrade": "websocket", "transfer-encoding": "chunked", "host": "other.example", "content-length": "7", "accept-encoding": "identity"}[nm]
 		op := hdrOp{Kind: "nc", K: k, V: v}
 		if r.Chance(70) {
 			sc.Req = append(sc.Req, op)
@@ -376,6 +382,7 @@ type captured struct {
 	path   string
 	scheme string
 	clen   int64
+	off    bool // set before concurrent use: nothing is recorded then
 }
 
 func newClient(sc scenario, o *origin.Origin, capt *captured) *req.Client {
@@ -383,6 +390,9 @@ func newClient(sc scenario, o *origin.Origin, capt *captured) *req.Client {
 	// innermost transport wrapper: what the protocol writers receive
 	c.Transport.WrapRoundTripFunc(func(rt http.RoundTripper) req.HttpRoundTripFunc {
 		return func(r *http.Request) (*http.Response, error) {
+			if capt.off {
+				return rt.RoundTrip(r)
+			}
 			capt.hdr = r.Header.Clone()
 			capt.method, capt.host, capt.path, capt.scheme = r.Method, r.Host, r.URL.RequestURI(), r.URL.Scheme
 			capt.clen = r.ContentLength
@@ -597,7 +607,9 @@ func oracle(r *hk.Run, sc scenario, obs origin.Obs) {
 				fail("cookie-crumb-corrupted", "a cookie field on HTTP/2 carries part of the pair separator", f, nil)
 			}
 			cookies = append(cookies, cookiePairs(f.Value)...)
-		case ln == "host" && sc.Proto == 1, ln == "content-length", ln == "transfer-encoding" && sc.Proto == 1:
+		case f.Name == "Host" && sc.Proto == 1, f.Name == "Content-Length" && sc.Proto == 1, ln == "content-length" && sc.Proto != 1,
+			f.Name == "Transfer-Encoding" && sc.Proto == 1:
+			// the writer's own lines (on HTTP/1.1 exactly these spellings; anything else is the caller's)
 		case ln == "accept-encoding" && f.Value == "gzip" && !sc.NoCompress && !callerSet(sc, "Accept-Encoding"):
 		case ln == "content-type" && sc.BodyLen > 0 && !callerSet(sc, "Content-Type"):
 		default:
